@@ -71,10 +71,10 @@ def prepare_gdd(weather_df, sim_start, sim_end, gdd, crop, sum_fun):
     # List of growth stages
     growth_stages = [
         'Emergence', 'Canopy10Pct', 'MaxRooting', 'MaxCanopy', 'CanopyDevEnd',
-        'Senescence', 'Maturity', 'HIstart', 'HIend', 'YieldFormation'
+        'Senescence', 'Maturity', 'HIstart', 'HIend', 'YldForm'
     ]
     if crop.CropType == 3:
-        growth_stages.extend(['FloweringEnd', 'FloweringDuration'])
+        growth_stages.extend(['FloweringEnd', 'Flowering'])
 
     # Create dictionary of lists to store yearly GDD values for each growth stage
     # i.e. create as many lists as there are elements in 'growth_stages',
@@ -110,9 +110,12 @@ def prepare_gdd(weather_df, sim_start, sim_end, gdd, crop, sum_fun):
         gdd_lists['CanopyDevEnd'].append(gdd_cum.iloc[int(crop.CanopyDevEndCD)])
         gdd_lists['Senescence'].append(gdd_cum.iloc[int(crop.SenescenceCD)])
         gdd_lists['Maturity'].append(gdd_cum.iloc[int(crop.MaturityCD)])
-        gdd_lists['HIstart'].append(gdd_cum.iloc[int(crop.HIstartCD)])
-        gdd_lists['HIend'].append(gdd_cum.iloc[int(crop.HIendCD)])
-        gdd_lists['YieldFormation'].append(crop.HIend - crop.HIstart)
+        hi_start=gdd_cum.iloc[int(crop.HIstartCD)]
+        hi_end=gdd_cum.iloc[int(crop.HIendCD)]
+        gdd_lists['HIstart'].append(hi_start)
+        gdd_lists['HIend'].append(hi_end)
+        # Duration of yield formation (gdd's)
+        gdd_lists['YldForm'].append(hi_end - hi_start)
 
         # Duration of flowering (gdd's) - (fruit/grain crops only)
         if crop.CropType == 3:
@@ -120,7 +123,7 @@ def prepare_gdd(weather_df, sim_start, sim_end, gdd, crop, sum_fun):
             # gdd's from sowing to end of flowering
             gdd_lists['FloweringEnd'].append(flowering_end)
             # Duration of flowering (gdd's)
-            gdd_lists['FloweringDuration'].append(flowering_end - crop.HIstart)
+            gdd_lists['Flowering'].append(flowering_end - hi_start)
 
     assert len(gdd_lists['Maturity']) > 0, "not enough growing degree days in simulation to reach maturity: no season in the simulation period is long enough to convert the crop calendar (SwitchGDD)"
 
